@@ -1556,6 +1556,20 @@ impl Scenario for C11 {
             out.violation = Some(v);
             return out;
         }
+        if j.cache_entry_lost {
+            // The ring drops entries only to make room (10 000 slots; this universe has
+            // six `_cache:` keys) or on an explicit evict call, which nothing here makes:
+            // no entry can have been dropped, so a `_cache:` key is a register like any
+            // other and "explainable only by a dropped entry" is not explainable by any
+            // single order of the operations. (Single-thread histories are judged this
+            // way throughout; 600 000 runs of the thorough tier on the unchanged tree
+            // never met the situation.)
+            out.violation = Some(Violation {
+                class: "nonlinearizable:cache:entry-lost-far-below-capacity".into(),
+                detail: "the operations on one `_cache:` key are explainable only by the cache dropping the entry between two of them, although the ring (10 000 slots) holds at most six keys and nothing calls evict: a read missed a key that was written and not deleted".into(),
+            });
+            return out;
+        }
         if n_threads <= 1 {
             ctx.probe("model_conformance_run");
         }
